@@ -10,7 +10,6 @@ import (
 	"fmt"
 	"os"
 	"path/filepath"
-	"runtime/debug"
 	"sort"
 	"strconv"
 	"strings"
@@ -123,16 +122,13 @@ func main() {
 		pd := registry[id]
 		t0 := time.Now()
 		c := &Ctx{ld: ld, prop: id, tier: *tier, repo: *repo, verif: vdir, known: known}
-		func() {
-			defer func() {
-				if r := recover(); r != nil {
-					c.fail("checker-panic", fmt.Sprint(r), nil, string(debug.Stack()))
-				}
-			}()
-			pd.run(c)
-		}()
-		if len(c.obligs) < pd.minOblig {
-			c.fail("vacuity", fmt.Sprintf("obligations=%d below frozen minimum %d", len(c.obligs), pd.minOblig), nil,
+		runRules(pd, c)
+		base := len(c.obligs)
+		if *tier == "thorough" {
+			c.thoroughExtras(pd, seed)
+		}
+		if base < pd.minOblig {
+			c.fail("vacuity", fmt.Sprintf("obligations=%d below frozen minimum %d", base, pd.minOblig), nil,
 				"a rule matched fewer constructs than were confirmed by hand on the pinned tree")
 		}
 		wall := time.Since(t0).Seconds()
